@@ -1,21 +1,28 @@
 """C07 - cleanup keeps exactly the newest files, compresses losslessly, spares the current file."""
 import gen_flw as g
 
-CLAIM = ("Proved in Coq for the model, END TO END for Numbers naming with KeepLogFiles / KeepCompressedFiles / KeepLogAndCompressedFiles and cleanup in the logging thread, every history of one run from an empty directory: in the end exactly rCURRENT, the newest n closed files (plain, as they were closed) and the next m (complete archives of exactly what the file held) exist, everything older is gone, and what survives is a suffix of what was written (C07_numbers_cleanup, C07_numbers_cleanup_vs_never; side conditions, both shown necessary by counterexamples in Coq: suffix not ending in .gz, at most 100000 rotations). The building blocks hold for every naming: (1) the listing the cleanup works on is a sorted permutation of the family's files under a total "
-         "order (C07_listing_sorted) in which - for every suffix and every number of digits of the restart counter - a file written "
-         "later under the same time stamp comes before the earlier ones, compressed or not (C07_listing_restart_order, "
-         "C07_listing_plain_last; hypothesis: the suffix does not end in .gz); (2) without faults the cleanup keeps the first "
-         "log_limit entries of that listing unchanged, turns the next compress_limit into archives with exactly the content of the "
-         "files they replace, removes everything beyond, removes redundant archives first and touches nothing else "
-         "(C07_cleanup_keeps_newest, C07_compress_lossless). Not proved: that every history of the writer hands the cleanup a listing "
-         "whose order is the order of writing for all namings (that is (1) for restart siblings, numbers by C01) - so the end-to-end "
-         "statement is decided per explored history by executable oracles defined in Coq (Oracles/O_Stream.v) on directory snapshots of "
-         "the implementation after every flush and stop: the family files in reader order (archives decompressed) form a tail of the "
-         "logged stream, the numbers of plain files and archives respect the limits, every archive is complete and is a segment of the "
-         "logged stream, the file being written is plain (C07_tail_sound, C07_limits_sound: soundness of these oracles). The model "
-         "(synchronous and queued background cleanup, compression step by step) is tied to the code by the correspondence check: partial.")
-THEOREMS = ["C07_numbers_cleanup", "C07_numbers_cleanup_vs_never", "C07_listing_sorted", "C07_listing_restart_order", "C07_listing_plain_last", "C07_compress_lossless", "C07_cleanup_keeps_newest",
-            "C07_tail_sound", "C07_limits_sound"]
+CLAIM = ('Proved in Coq for the model, END TO END for Numbers naming with KeepLogFiles / KeepCompressedFiles / '
+         'KeepLogAndCompressedFiles and cleanup in the logging thread, every history of one run from an empty directory: in the '
+         'end exactly rCURRENT, the newest n closed files (plain, as they were closed) and the next m (complete archives of '
+         'exactly what the file held) exist, everything older is gone, and what survives is a suffix of what was written '
+         '(C07_numbers_cleanup, C07_numbers_cleanup_vs_never; side conditions, both shown necessary by counterexamples in Coq: '
+         'suffix not ending in .gz, at most 100000 rotations). The building blocks hold for every naming: (1) the listing the '
+         "cleanup works on is a sorted permutation of the family's files under a total order (C07_listing_sorted) in which - for "
+         'every suffix and every number of digits of the restart counter - a file written later under the same time stamp comes '
+         'before the earlier ones, compressed or not (C07_listing_restart_order, C07_listing_plain_last; hypothesis: the suffix '
+         'does not end in .gz); (2) without faults the cleanup keeps the first log_limit entries of that listing unchanged, '
+         'turns the next compress_limit into archives with exactly the content of the files they replace, removes everything '
+         'beyond, removes redundant archives first and touches nothing else (C07_cleanup_keeps_newest, C07_compress_lossless). '
+         'Not proved: that every history of the writer hands the cleanup a listing whose order is the order of writing for all '
+         'namings (that is (1) for restart siblings, numbers by C01) - so the end-to-end statement is decided per explored '
+         'history by executable oracles defined in Coq (Oracles/O_Stream.v) on directory snapshots of the implementation after '
+         'every flush and stop: the family files in reader order (archives decompressed) form a tail of the logged stream, the '
+         'numbers of plain files and archives respect the limits, every archive is complete and is a segment of the logged '
+         'stream, the file being written is plain (C07_tail_sound, C07_limits_sound: soundness of these oracles). The model '
+         '(synchronous and queued background cleanup, compression step by step) is tied to the code by the correspondence check: '
+         "partial. With cleanup in the background thread the same end-to-end statement holds under the model's and harness's "
+         'scheduling, in which each request is finished before the next operation (C07_numbers_cleanup_bg). ')
+THEOREMS = ["C07_numbers_cleanup", "C07_numbers_cleanup_vs_never", "C07_listing_sorted", "C07_listing_restart_order", "C07_listing_plain_last", "C07_compress_lossless", "C07_cleanup_keeps_newest", "C07_tail_sound", "C07_limits_sound", "C07_numbers_cleanup_bg"]
 TRUSTED = ["modelled, not verified: flate2 (validated by decompressing every archive), read_dir, the keyed sort of the listing (modelled as insertion sort by the same key), "
            "the background cleanup thread is modelled as a queue drained at shutdown (interleavings with rotations: not explored here)"]
 ASSUMPTIONS = ["no I/O faults, no kill, no foreign files; the same cleanup strategy in all runs of a history"]
